@@ -8,7 +8,7 @@ from fvsym import kernels
 BOUNDS = {
     "quick": "kernels dot (K=3), matrix-vector 2x3 in loop orders MK and KM, row reduction 2x3, matrix-matrix 2x2x2 (MNK) with one operand symbolic (every sparsity pattern); "
              "collection off versus on with trace subsets {none, iter only, all seven types} registered as consumable traces; counters compared with what the loop bodies "
-             "executed; a fresh session after three kinds of earlier session (other ranks + matchRanks, same ranks partially consumed, aborted mid-kernel) against a cold run",
+             "executed; a fresh session after three kinds of earlier session (other ranks + matchRanks, same ranks partially consumed, aborted mid-kernel) against a cold run; matrix-vector with the output obtained by getPayloadRef and with the reduction rank walked densely (zero operands multiplied), Compute.numOps / numIters against the executed counts",
     "thorough": "adds tiled dataflows, matrix-vector 3x3, explicit-zero operands, every subset of trace types per rank",
 }
 OUTSIDE = "file-backed traces (C16 covers flush independence); metrics of the traffic/compute post-processing models; tiled dataflows on operands that store all-default sub-fibers (region of known finding F16)"
